@@ -99,6 +99,80 @@ where
     | [] => [x]
     | y :: ys => if x ≤ y then x :: y :: ys else y :: insertNat x ys
 
+/-! ### the same admission with the vehicle data as they are (possibly unset)
+
+`checkRoute` above answers `.error .type` as soon as the preliminary tests pass when capacity / initial loading are
+unset.  The code is lazier: `loading = self.initial_loading` may be `None`, and `check_arc` only touches the load
+after the arc lookup and the time-window test.  The `…O` versions follow that order exactly. -/
+
+/-- `check_arc(time, load, key)` with optional vehicle data: `.ok none` = infeasible (`False`), `.error .type` =
+    `TypeError`.  Order of the code: arc lookup (`KeyError` → `False`), time window (late → `False`), then
+    `load += dest.get_load()` (`TypeError` when `load is None`), then `load > self.vehicle_cap or load < 0`
+    (`TypeError` when `vehicle_cap is None`: `load > None` is evaluated first) -/
+def checkArcO (g : Graph) (cap : Option Rat) (time : Rat) (load : Option Rat) (i j : Nat) :
+    Except Err (Option (Rat × Rat)) :=
+  match g.arc? i j with
+  | none => .ok none
+  | some a =>
+    let t := maxR (time + a.time) (g.lo j)
+    if ltE (g.hi j) t then .ok none
+    else
+      match load with
+      | none => .error .type                 -- None += number
+      | some ld =>
+        let l := ld - g.demand j             -- load += dest.get_load() = -demand
+        match cap with
+        | none => .error .type               -- number > None
+        | some c => if c < l ∨ l < 0 then .ok none else .ok (some (t, l))
+
+/-- the main loop of `check_route` with optional vehicle data (`checkLoop` with `checkArcO`) -/
+def checkLoopO (g : Graph) (cap : Option Rat) :
+    Nat → List Stop → Rat → Option Rat → Rat → List Nat → Except Err RouteCheck
+  | _, [], _, _, cost, vis => .ok ⟨true, cost, vis⟩
+  | cur, nxt :: rest, time, load, cost, vis =>
+    if cur ∈ vis then .ok ⟨false, cost, vis⟩
+    else
+      let vis' := vis ++ [cur]
+      match resolve g nxt with
+      | .error e => .error e
+      | .ok j =>
+        match checkArcO g cap time load cur j with
+        | .error e => .error e
+        | .ok none => .ok ⟨false, cost, vis'⟩
+        | .ok (some (t, l)) =>
+          let c := ((g.arc? cur j).map (·.cost)).getD 0
+          checkLoopO g cap j rest t (some l) (cost + c) vis'
+
+/-- `check_route(candidate)` as the code runs it whatever the vehicle data: same preliminary tests as `checkRoute`,
+    then the loop starts with `loading = self.initial_loading` (possibly `None`); `TypeError` is raised only when a
+    leg reaches the load arithmetic -/
+def checkRouteO (g : Graph) (route : List Stop) : Except Err RouteCheck :=
+  if route.length < 2 then .ok ⟨false, 0, []⟩ else
+  match route with
+  | [] => .ok ⟨false, 0, []⟩
+  | first :: rest =>
+    match resolve g first with
+    | .error e => .error e
+    | .ok f =>
+      match rest.head?.map (resolve g), rest.getLast?.map (resolve g) with
+      | some (.error e), _ => .error e
+      | _, some (.error e) => .error e
+      | _, some (.ok l) =>
+        if f ≠ 0 ∨ l ≠ 0 then .ok ⟨false, 0, []⟩
+        else checkLoopO g g.cap f rest (g.lo 0) g.init 0 []
+      | _, none => .ok ⟨false, 0, []⟩
+
+/-- `add_route(route)` with `checkRouteO` -/
+def PathInst.addRouteO (P : PathInst) (route : List Stop) : PathInst × Except Err (Bool × Bool) :=
+  match checkRouteO P.g route with
+  | .error e => (P, .error e)
+  | .ok rc =>
+    let r := resolveAll P.g route
+    if rc.feas ∧ r ∉ P.routes then
+      ({ P with routes := P.routes ++ [r], costs := P.costs ++ [rc.cost],
+                visited := P.visited ++ [PathInst.addRoute.sortNat rc.visits] }, .ok (true, true))
+    else (P, .ok (rc.feas, false))
+
 /-- `get_math_program_data` / `get_constraint_data` / `get_objective_data`: exact cover over the pool,
     rows = non-depot nodes of the *current* node list -/
 def PathInst.data (P : PathInst) : MPData :=
